@@ -741,15 +741,21 @@ theorem sdO_of_pieceDone (o : List HOut) (h : Cmd.pieceDone ∈ cmdsOf o) : fals
       | recvRequest _ => rcases h with h | h; (cases h); change false ∈ sdO xs; exact ih h
       | pieceCancel => rcases h with h | h; (cases h); change false ∈ sdO xs; exact ih h
 
-theorem any_isSave_of_savesO (sha1 : Bytes → Bytes) (o : List HOut) (h : savesO sha1 o ≠ []) : o.any isSave = true := by
-  induction o with
-  | nil => simp [savesO] at h
-  | cons x xs ih =>
-    cases x with
-    | save hh dd => simp [isSave]
-    | write m => simp only [savesO, List.filterMap_cons] at h; simp [isSave, ih h]
-    | cmd c => simp only [savesO, List.filterMap_cons] at h; simp [isSave, ih h]
-    | load hh => simp only [savesO, List.filterMap_cons] at h; simp [isSave, ih h]
+theorem mem_savesO (sha1 : Bytes → Bytes) (o : List HOut) (n dh : Bytes) (l : Nat) (h : (n, dh, l) ∈ savesO sha1 o) :
+    ∃ d, HOut.save n d ∈ o ∧ sha1 d = dh := by
+  simp only [savesO, List.mem_filterMap] at h
+  obtain ⟨x, hx, hf⟩ := h
+  cases x with
+  | save hh dd => simp only [Option.some.injEq, Prod.mk.injEq] at hf; obtain ⟨rfl, rfl, _⟩ := hf; exact ⟨dd, hx, rfl⟩
+  | write m => cases hf
+  | cmd c => cases hf
+  | load hh => cases hf
+
+theorem step01c_none_of_hash (st : M01) (inp : TIn) (obs : List Obs) (e : Option Bool) (n dh : Bytes) (l : Nat)
+    (hs : savedObs obs = [(n, dh, l)]) (hw : dh ≠ n) : step01c st inp obs e = none := by
+  unfold step01c
+  have hd : decide (st.want = some n ∧ dh = n) = false := decide_eq_false (fun c => hw c.2)
+  simp only [hs, hd, Bool.false_and, Bool.not_false, if_true]
 
 theorem savesO_length (sha1 : Bytes → Bytes) (o : List HOut) : (savesO sha1 o).length = (sdO o).count true := by
   induction o with
@@ -780,7 +786,8 @@ theorem step01c_none_of_want (st : M01) (inp : TIn) (obs : List Obs) (e : Option
     (from `step01_sound`, the soundness of the C01 monitor, applied to this one step). -/
 theorem pieceDone_saves (sha1 : Bytes → Bytes) (d : Option (Bytes × Bytes)) (t : HState) (inp : HIn) (t' : HState)
     (outs : List HOut) (e : Option Bool) (h : hstep sha1 (diskOf d) t inp = some (t', outs, e))
-    (hm : Cmd.pieceDone ∈ cmdsOf outs) : t.pieceRx.isSome = true ∧ outs.any isSave = true := by
+    (hm : Cmd.pieceDone ∈ cmdsOf outs) :
+    ∃ rx, t.pieceRx = some rx ∧ (rx.index, rx.hash, rx.hash) ∈ savedBy sha1 t outs := by
   cases hal : t.alive with
   | false =>
     simp only [hstep, hal, Bool.not_false, if_true, Option.some.injEq, Prod.mk.injEq] at h
@@ -789,7 +796,8 @@ theorem pieceDone_saves (sha1 : Bytes → Bytes) (d : Option (Bytes × Bytes)) (
   | true =>
     have hg : (!t.alive) = false := by simp [hal]
     -- the inputs through which a piece can be completed or re-assigned are those of the trace model
-    have key : ∀ (ti : TIn), tstep sha1 t ti = some (t', outs, e) → t.pieceRx.isSome = true ∧ outs.any isSave = true := by
+    have key : ∀ (ti : TIn), tstep sha1 t ti = some (t', outs, e) →
+        ∃ rx, t.pieceRx = some rx ∧ (rx.index, rx.hash, rx.hash) ∈ savedBy sha1 t outs := by
       intro ti hts
       obtain ⟨st', hacc, _⟩ := step01_sound sha1 { want := hashOf t, alive := t.alive } t ti t' outs e ⟨rfl, fun _ => rfl⟩ hts
       have hacc2 : step01c { want := hashOf t, alive := t.alive } ti (outs.filterMap (obsOf sha1)) e = some st' := by
@@ -809,7 +817,6 @@ theorem pieceDone_saves (sha1 : Bytes → Bytes) (d : Option (Bytes × Bytes)) (
       cases hsv : savesO sha1 outs with
       | nil => rw [hsv] at hdone; simp at hdone; rw [hdone] at hf; cases hf
       | cons x xs =>
-        refine ⟨?_, any_isSave_of_savesO sha1 outs (by rw [hsv]; simp)⟩
         have hsd : sdO outs = [true, false] := by rw [hdone, hsv]; rfl
         -- exactly one store (one `true` in the order expression)
         obtain ⟨n, dh, l⟩ := x
@@ -820,10 +827,20 @@ theorem pieceDone_saves (sha1 : Bytes → Bytes) (d : Option (Bytes × Bytes)) (
           exact hlen
         subst hone
         by_cases hw : hashOf t = some n
-        · unfold hashOf at hw
-          cases hp : t.pieceRx with
-          | none => rw [hp] at hw; cases hw
-          | some _ => rfl
+        · by_cases hdn : dh = n
+          · subst hdn
+            unfold hashOf at hw
+            cases hp : t.pieceRx with
+            | none => rw [hp] at hw; cases hw
+            | some rx =>
+              rw [hp] at hw
+              simp only [Option.map_some, Option.some.injEq] at hw
+              obtain ⟨data, hmem, hsha⟩ := mem_savesO sha1 outs dh dh l (by rw [hsv]; simp)
+              refine ⟨rx, rfl, ?_⟩
+              simp only [savedBy, hp, List.mem_filterMap]
+              exact ⟨.save dh data, hmem, by simp [hw, hsha]⟩
+          · rw [step01c_none_of_hash _ _ _ _ n dh l (by rw [savedObs_obs, hsv]) hdn] at hacc2
+            cases hacc2
         · rw [step01c_none_of_want _ _ _ _ n dh l (by rw [savedObs_obs, hsv]) hw] at hacc2
           cases hacc2
     cases inp with
@@ -887,17 +904,19 @@ theorem afterEnd_have (a : Nat) (e : Option Bool) (m : MState) (i : Nat)
 /-- **T6 (C01, the whole client).** Any number of connection tasks and the manager running in closed loop — every
     reply a task gets is the manager's answer to the command it sent, connections are added at any time, their steps are
     interleaved arbitrarily, every input (any frames in any order, broadcasts, ticks, stream ends) and every outcome of
-    the chooser is allowed. In every reachable state, a piece the manager treats as owned is one for which some task has
-    written a piece file while it was fetching exactly that piece — and (`C01_trace`, `T1_store_only_verified`) a task
-    writes a file only with data that hash to the listed hash it was given for the piece it fetches. -/
+    the chooser is allowed. In every reachable state, for a piece `i` the manager treats as owned (served, advertised,
+    counted as done, used for the output files), some task has written a piece file **while it was fetching piece `i`,
+    named by the hash the torrent lists for `i`, with data hashing to exactly that value**. (`sha1` is any function.) -/
 theorem T6_whole_client_owned_pieces_have_been_stored (T : Torrent) (sha1 : Bytes → Bytes) (S : Sys)
-    (h : SysReach T sha1 S) (i : Nat) (hi : S.m.statuses[i]? = some .have) : i ∈ S.stored := by
+    (h : SysReach T sha1 S) (i : Nat) (hi : S.m.statuses[i]? = some .have) :
+    (i, T.hashes.getD i [], T.hashes.getD i []) ∈ S.stored := by
   induction h generalizing i with
   | init n dead _ =>
     simp only [List.getElem?_replicate] at hi
     split at hi <;> simp at hi
   | step S S' hr hs ih =>
     have hlink := allLinked_reach T sha1 S hr
+    have hlisted := allListed_reach T sha1 S hr
     cases hs with
     | connect a t m' hnone hfresh hadd =>
       simp only [mstep, Out.ok.injEq] at hadd
@@ -911,7 +930,7 @@ theorem T6_whole_client_owned_pieces_have_been_stored (T : Torrent) (sha1 : Byte
       · exact List.mem_append_right _ (ih i hold)
       · obtain ⟨hcs, p, hp, hpi⟩ := handled_have T a S.m m1 _ _ hH i h1 hold
         have hmem : Cmd.pieceDone ∈ cmdsOf outs := by rw [hcs]; simp
-        obtain ⟨hrx, hsave⟩ := pieceDone_saves sha1 d (S.tasks a) inp t' outs e hh hmem
+        obtain ⟨rx, hprx, hsaved⟩ := pieceDone_saves sha1 d (S.tasks a) inp t' outs e hh hmem
         -- the task is alive (a dead task emits nothing), so it is linked
         have hal : (S.tasks a).alive = true := by
           cases hal : (S.tasks a).alive with
@@ -922,14 +941,13 @@ theorem T6_whole_client_owned_pieces_have_been_stored (T : Torrent) (sha1 : Byte
             simp [cmdsOf] at hmem
         obtain ⟨p', hp', hrx', _, hidx⟩ := hlink a hal
         rw [hp] at hp'; cases hp'
-        cases hprx : (S.tasks a).pieceRx with
-        | none => rw [hprx] at hrx; cases hrx
-        | some rx =>
-          rw [hprx] at hrx'
-          have : p.pieceIndex = some rx.index := hidx rx.index hrx'.symm
-          rw [hpi] at this; cases this
-          apply List.mem_append_left
-          simp [savedIdx, hsave, hprx]
+        rw [hprx] at hrx'
+        have : p.pieceIndex = some rx.index := hidx rx.index hrx'.symm
+        rw [hpi] at this; cases this
+        have hlst := hlisted a hal rx hprx
+        apply List.mem_append_left
+        rw [← hlst]
+        exact hsaved
 
 /-- **T6b (the premise of the manager model justified).** In every reachable state of the whole client, when a task
     reports `PieceDone` the manager has that connection recorded as fetching a piece (`rx`), which is its assigned piece —
@@ -939,7 +957,7 @@ theorem T6_piece_done_only_while_assigned (T : Torrent) (sha1 : Bytes → Bytes)
     (a : Nat) (d : Option (Bytes × Bytes)) (inp : HIn) (t' : HState) (outs : List HOut) (e : Option Bool)
     (hh : hstep sha1 (diskOf d) (S.tasks a) inp = some (t', outs, e)) (hm : Cmd.pieceDone ∈ cmdsOf outs) :
     Enabled S.m (.pieceDone a none) ∧ ∃ p y, findPeer S.m a = some p ∧ p.rx = some y ∧ p.pieceIndex = some y := by
-  obtain ⟨hrx, _⟩ := pieceDone_saves sha1 d (S.tasks a) inp t' outs e hh hm
+  obtain ⟨rx, hprx, _⟩ := pieceDone_saves sha1 d (S.tasks a) inp t' outs e hh hm
   have hal : (S.tasks a).alive = true := by
     cases hal : (S.tasks a).alive with
     | true => rfl
@@ -948,11 +966,8 @@ theorem T6_piece_done_only_while_assigned (T : Torrent) (sha1 : Bytes → Bytes)
       obtain ⟨_, rfl, _⟩ := hh
       simp [cmdsOf] at hm
   obtain ⟨p, hp, hrx', _, hidx⟩ := allLinked_reach T sha1 S h a hal
-  cases hprx : (S.tasks a).pieceRx with
-  | none => rw [hprx] at hrx; cases hrx
-  | some rx =>
-    rw [hprx] at hrx'
-    exact ⟨⟨p, rx.index, hp, hrx'.symm⟩, p, rx.index, hp, hrx'.symm, hidx _ hrx'.symm⟩
+  rw [hprx] at hrx'
+  exact ⟨⟨p, rx.index, hp, hrx'.symm⟩, p, rx.index, hp, hrx'.symm, hidx _ hrx'.symm⟩
 
 /-- Non-vacuity (test): a reachable state of the whole client with a live connection task, linked to its record. -/
 example : ∃ S, SysReach ⟨[[7]], fun _ => 1⟩ id S ∧ (S.tasks 0).alive = true ∧ AllLinked S := by
